@@ -330,7 +330,9 @@ pub fn record_calls(inputs: Vec<(String, String)>, cfgs: &[Cfg], cfg_arg: &str, 
     let exe = std::env::current_exe().unwrap();
     // de-duplicate
     let mut seen = BTreeSet::new();
-    let inputs: Vec<(String, String)> = inputs.into_iter().filter(|(_, t)| seen.insert(t.clone())).collect();
+    let mut inputs: Vec<(String, String)> = inputs.into_iter().filter(|(_, t)| seen.insert(t.clone())).collect();
+    // nest families last, each family contiguous and by increasing size (so that the guard above can work)
+    inputs.sort_by_key(|(id, t)| (id.starts_with("nest:"), if id.starts_with("nest:") { id.rsplitn(2, ':').nth(1).unwrap_or("").to_string() } else { String::new() }, if id.starts_with("nest:") { t.len() } else { 0 }));
     let batches: Vec<&[(String, String)]> = inputs.chunks(1500).collect();
     let results: Vec<Vec<String>> = batches
         .par_iter()
@@ -365,6 +367,10 @@ pub fn record_calls(inputs: Vec<(String, String)>, cfgs: &[Cfg], cfg_arg: &str, 
                                         "outcome": why, "ierr": Source::detached(t.as_str()).root().erroneous(), "oerr": false, "nonempty": true,
                                         "phases": [], "wrapper": why, "wrapper_same": false, "ms": 0, "len": t.len()}).to_string());
                         rest = rest[pos + 1..].to_vec();
+                        if let Some(fam) = id.strip_prefix("nest:").and_then(|x| x.rsplit_once(':')).map(|x| format!("nest:{}:", x.0)) {
+                            // resource guard: do not wait for the time-out again on deeper members of the same family
+                            rest.retain(|x| !x.0.starts_with(&fam));
+                        }
                         if rest.is_empty() {
                             break;
                         }
@@ -490,13 +496,32 @@ pub fn record_visits(max_depth: usize, widths: &[usize], outdir: &Path, shards: 
         }
     }
     inputs.extend(extra);
-    let evs: Vec<String> = inputs
+    // group by family so that a family whose cost explodes is not nested any deeper (resource guard only: the
+    // event that exceeded the bound is recorded and judged by TLC like every other)
+    let mut groups: BTreeMap<String, Vec<(String, String)>> = BTreeMap::new();
+    for (id, t) in &inputs {
+        let fam = if id.starts_with("nest") { id.rsplitn(2, ':').nth(1).unwrap_or(id).to_string() } else { id.clone() };
+        groups.entry(fam).or_default().push((id.clone(), t.clone()));
+    }
+    let groups: Vec<Vec<(String, String)>> = groups.into_values().collect();
+    let evs: Vec<String> = groups
         .par_iter()
-        .flat_map(|(id, t)| {
-            widths
-                .iter()
-                .filter_map(|&w| visit_event(id, t, Cfg { w, tab: 2, bl: 2, ro: false }).map(|v| v.to_string()))
-                .collect::<Vec<_>>()
+        .flat_map(|g| {
+            let mut out = vec![];
+            let mut g = g.clone();
+            g.sort_by_key(|(_, t)| t.len());
+            'fam: for (id, t) in &g {
+                for &w in widths {
+                    if let Some(v) = visit_event(id, t, Cfg { w, tab: 2, bl: 2, ro: false }) {
+                        let blown = v["visits"].as_u64().unwrap_or(0) > 16 * v["nodes"].as_u64().unwrap_or(1);
+                        out.push(v.to_string());
+                        if blown {
+                            break 'fam;
+                        }
+                    }
+                }
+            }
+            out
         })
         .collect();
     let mut writers: Vec<BufWriter<fs::File>> = (0..shards)
